@@ -664,8 +664,19 @@ func (c *Conn) Seek(offset int64, whence int) (int64, error) {
 
 	if whence == SeekCurrent {
 		c.mutex.Lock()
-		offset = c.offset + offset
+		current := c.offset
 		c.mutex.Unlock()
+
+		switch current {
+		case FirstOffset:
+			// The connection has not been positioned yet (or was positioned
+			// at the first offset), Offset reports this as (0, SeekStart).
+			whence = SeekStart
+		case LastOffset:
+			whence, offset = SeekEnd, -offset
+		default:
+			offset = current + offset
+		}
 	}
 
 	first, last, err := c.ReadOffsets()
